@@ -23,7 +23,7 @@ from .. import gen as G
 
 PID = 'C02'
 RULE = ('hard-sphere cases = (packing fraction uniform 0.02..0.47, diameter 0.8|1.0|1.2, kT 0.3..10, r_max = 25.6 d, levels dr = d/10, d/20, d/40, d/80; 40 % as a density sweep on one re-used System whose state moves on before the collected object is post-processed; Domain via dr/dk/setters, kT via constructor/assignment); '
-        'dilute cases = every shipped potential (epsilon/kT in -1.5..1.5) x {PY, HNC, MSA(flag)} at packing fraction 1e-7 on dr = 0.05, 0.025, 0.0125 (narrow features such as the WCA shoulder must be resolved; the error ratio is judged on the finest pair); '
+        'dilute cases = every shipped potential (epsilon/kT in -1.5..1.5) x {PY, HNC, MSA(flag)} at packing fractions 1e-7, 1e-9, 1e-11 (deviation of g allowed: 500 rho relative) on dr = 0.05, 0.025, 0.0125 (narrow features such as the WCA shoulder must be resolved; the error ratio is judged on the finest pair); '
         'each case = one refinement family; only families whose every level converges (fatol 1e-11) are judged; non-trivial = all levels converged and compared; '
         'distinct = distinct case digests')
 ASSUMPTIONS = ['Wertheim-Thiele closed forms (refmodel.py_hs_*); scipy.integrate.quad for the exact B2',
@@ -46,7 +46,7 @@ def cases(ctx):
                'levels': 4, 'hc': bool(rng.random() < 0.3), 'rmax': float(rng.choice([25.6, 25.6, 20.5, 28.7])), 'reuse': bool(rng.random() < 0.4), 'via': str(rng.choice(G.VIAS)), 'kT_via': str(rng.choice(['ctor', 'assign']))}
     n = ctx.budget(84, 630)
     for it in range(n):
-        yield {'kind': 'dilute', 'pot': POTS[it % len(POTS)], 'clo': ['PY', 'HNC', 'MSA'][(it // len(POTS)) % 3], 'hc': bool(rng.random() < 0.4), 'rmax': float(rng.choice([25.6, 25.6, 20.5])), 'kT': float(rng.choice([1.0, 2.5, 0.7, 4.0])),
+        yield {'kind': 'dilute', 'pot': POTS[it % len(POTS)], 'clo': ['PY', 'HNC', 'MSA'][(it // len(POTS)) % 3], 'hc': bool(rng.random() < 0.4), 'rmax': float(rng.choice([25.6, 25.6, 20.5])), 'rho_exp': int(rng.choice([-7, -7, -9, -11])), 'kT': float(rng.choice([1.0, 2.5, 0.7, 4.0])),
                'eps': float(rng.uniform(0.2, 1.5)) * float(rng.choice([-1, 1])), 'alpha': float(rng.uniform(0.3, 1.0)), 'levels': 3,
                'via': str(rng.choice(G.VIAS)), 'kT_via': str(rng.choice(['ctor', 'assign']))}
 
@@ -174,7 +174,7 @@ def dilute_spec(case, dr):
           'LJcs': {'t': 'LJ', 'eps': abs(eps), 'rcut': 2.5, 'shift': True}, 'LJc': {'t': 'LJ', 'eps': abs(eps), 'rcut': 3.0, 'shift': False}, 'WCA': {'t': 'WCA', 'eps': abs(eps)}}[pot]
     cs = {'t': case['clo'], 'hc': case['clo'] == 'MSA' or bool(case.get('hc'))}
     L = int(round(case.get('rmax', 25.6) / dr))
-    return dict(types=['A'], dr=dr, L=L, d={'A': 1.0}, rho={'A': 6e-7 / math.pi}, kT=case['kT'], pot={'A|A': ps}, clo={'A|A': cs}, om={'A|A': {'t': 'SS'}},
+    return dict(types=['A'], dr=dr, L=L, d={'A': 1.0}, rho={'A': 6 * 10.0 ** case.get('rho_exp', -7) / math.pi}, kT=case['kT'], pot={'A|A': ps}, clo={'A|A': cs}, om={'A|A': {'t': 'SS'}},
                 via=case.get('via', 'dr'), kT_via=case.get('kT_via', 'ctor'))
 
 
@@ -215,8 +215,9 @@ def run_dilute(ctx, case):
         err = float(np.abs(row['g'] - gex)[m].max())
         # the first density correction is O(rho * Int f f) relative: up to ~3e-5 for the strongest attractions generated
         err = float((np.abs(row['g'] - gex) / (1 + np.abs(gex)))[m].max())
-        ctx.observe('dilute_g/1e-4', err / 1e-4)
-        if not err <= 1e-4:
+        gtol = 500 * sp['rho']['A'] + 1e-9              # "vanishing density": the deviation must vanish with rho
+        ctx.observe('dilute_g/(500 rho)', err / gtol)
+        if not err <= gtol:
             i = int(np.argmax(np.where(m, np.abs(row['g'] - gex), 0)))
             ctx.violation('exact:dilute-g-differs-from-boltzmann-factor', '%s: g(r=%.4g) = %.8g, dilute limit %.8g (dr=%g)' % (label, row['r'][i], row['g'][i], gex[i], row['dr']))
             return
